@@ -234,8 +234,24 @@ def scalar_and_message_legs(ck, rnd, tier):
         b = WriteBuf().write_string(s).write_flush()
         if b != wire.string(s) or ReadBuf(b).read_string() != s:
             ck.violation('string-codec', 'string of %d bytes' % len(s), {})
+    # text arguments: the length prefix counts bytes of the UTF-8 encoding, not characters
+    for t in ['', 'abc', 'caf\u00e9', 'fran\u00e7ais', '\u4e2d\u6587', 'x\ufffdy', 'a,b', '\U0001f600-cipher@example.org']:
+        ck.evaluated()
+        want = wire.string(t.encode('utf-8'))
+        b = WriteBuf().write_string(t).write_flush()
+        b2 = WriteBuf().write_list([t, 'aes128-ctr']).write_flush()
+        want2 = wire.string((t + ',aes128-ctr').encode('utf-8'))
+        if b != want or b2 != want2:
+            ck.violation('string-codec text=non-ascii' if any(ord(ch) > 127 for ch in t) else 'string-codec text=ascii',
+                         'write_string/write_list(%r) -> %s / %s, RFC 4251 encoding is %s / %s' % (t, b.hex(), b2.hex(), want.hex(), want2.hex()), {'text': t})
+        elif ReadBuf(b2).read_list() != [t, 'aes128-ctr'] and ',' not in t:
+            ck.violation('list-codec text=non-ascii', 'read_list(write_list([%r, ..])) differs' % t, {'text': t})
+        else:
+            ck.cov['traces_validated_against_impl'] += 1
+            ck.nontrivial(('text', t))
     # KEXINIT: parse . write is the identity on bytes, and the tool's writer agrees with the independent encoder
-    names = ['curve25519-sha256', 'a', 'x=+/', 'gss-gex-sha1-toWM5Slw5Ew8Mqkay+al2g==', 'aes128-ctr@example.org', 'hmac-sha2-256', 'none', 'zlib@openssh.com', '']
+    names = ['curve25519-sha256', 'a', 'x=+/', 'gss-gex-sha1-toWM5Slw5Ew8Mqkay+al2g==', 'aes128-ctr@example.org', 'hmac-sha2-256', 'none', 'zlib@openssh.com', '',
+             'fran\u00e7ais', '\u4e2d\u6587-kex@example.org']
     for _ in range(300 if tier == 'quick' else 3000):
         ck.evaluated()
         lists = {k: [rnd.choice(names).encode() for _ in range(rnd.randint(0, 4))] for k in wire.KEXINIT_FIELDS}
